@@ -8,26 +8,34 @@ WT=/tmp/cs_$$
 git -C /repo worktree add -f $WT HEAD -q || exit 2
 cmd=$(python3 -c "import json,sys; print(json.load(open('$D/meta.json')).get('demo_cmd',''))" 2>/dev/null)
 build_demo() {  # $1 = output exe
-  if grep -q "amgcl/mpi\|mpi.h" $D/demo.cpp 2>/dev/null; then mpicxx -std=c++17 -O1 -fopenmp -I $WT -I/usr/include/eigen3 $D/demo.cpp -o $1 2>/tmp/cs_build.err
-  elif grep -q '"amgcl.h"' $D/demo.cpp 2>/dev/null; then g++ -std=c++17 -O1 -fopenmp -I $WT -I $WT/lib -I/usr/include/eigen3 $D/demo.cpp $WT/lib/amgcl.cpp -o $1 2>/tmp/cs_build.err
-  else g++ -std=c++17 -O1 -fopenmp -I $WT -I/usr/include/eigen3 $D/demo.cpp -o $1 2>/tmp/cs_build.err; fi
+  if grep -q "amgcl/mpi\|mpi.h" $D/demo.cpp 2>/dev/null; then mpicxx -std=c++17 -O1 -fopenmp -I $WT -I/usr/include/eigen3 $D/demo.cpp -o $1 2>/tmp/cs_$$_build.err
+  elif grep -q '"amgcl.h"' $D/demo.cpp 2>/dev/null; then g++ -std=c++17 -O1 -fopenmp -I $WT -I $WT/lib -I/usr/include/eigen3 $D/demo.cpp $WT/lib/amgcl.cpp -o $1 2>/tmp/cs_$$_build.err
+  else g++ -std=c++17 -O1 -fopenmp -I $WT -I/usr/include/eigen3 $D/demo.cpp -o $1 2>/tmp/cs_$$_build.err; fi
 }
 run_demo() {    # $1 = exe ; uses np from meta demo_cmd if it is an MPI demo
   if grep -q "amgcl/mpi\|mpi.h" $D/demo.cpp 2>/dev/null; then
      np=$(echo "$cmd" | grep -o "\-np [0-9]*" | head -1 | awk '{print $2}'); np=${np:-3}
-     OMP_NUM_THREADS=1 timeout 600 mpirun --allow-run-as-root --oversubscribe -np $np $1 > /tmp/cs_demo.out 2>&1
+     OMP_NUM_THREADS=1 timeout 600 mpirun --allow-run-as-root --oversubscribe -np $np $1 > /tmp/cs_$$_demo.out 2>&1
   else
-     OMP_NUM_THREADS=${DEMO_THREADS:-4} timeout 900 $1 > /tmp/cs_demo.out 2>&1
+     OMP_NUM_THREADS=${DEMO_THREADS:-4} timeout 900 $1 > /tmp/cs_$$_demo.out 2>&1
   fi
 }
-build_demo /tmp/cs_demo_clean || { echo "$D demo-build-failed-clean $(head -c 300 /tmp/cs_build.err)" >> $LOG; git -C /repo worktree remove --force $WT; exit 1; }
-run_demo /tmp/cs_demo_clean; rc_clean=$?
+build_demo /tmp/cs_$$_demo_clean || { echo "$D demo-build-failed-clean $(head -c 300 /tmp/cs_$$_build.err)" >> $LOG; git -C /repo worktree remove --force $WT; exit 1; }
+run_demo /tmp/cs_$$_demo_clean; rc_clean=$?
 git -C $WT apply $D/patch.diff || { echo "$D patch-does-not-apply" >> $LOG; git -C /repo worktree remove --force $WT; exit 1; }
-build_demo /tmp/cs_demo_patched || { echo "$D demo-build-failed-patched" >> $LOG; git -C /repo worktree remove --force $WT; exit 1; }
-run_demo /tmp/cs_demo_patched; rc_patched=$?
+build_demo /tmp/cs_$$_demo_patched || { echo "$D demo-build-failed-patched" >> $LOG; git -C /repo worktree remove --force $WT; exit 1; }
+run_demo /tmp/cs_$$_demo_patched; rc_patched=$?
+# REUSE_BUILD=<patched worktree with an existing _build>: the suite is (re)built incrementally and run there by this script
+# instead of from scratch (the tree must differ from HEAD by exactly patch.diff, which is asserted first).
+if [ -n "$REUSE_BUILD" ]; then
+  if ! diff <(git -C $REUSE_BUILD diff) <(git -C $WT diff) > /dev/null; then echo "$D reuse-tree-differs-from-patch" >> $LOG; git -C /repo worktree remove --force $WT; exit 1; fi
+  ( cd $REUSE_BUILD && nice cmake --build _build -j6 > _build/build2.log 2>&1 && GOMP_SPINCOUNT=0 OMP_NUM_THREADS=4 ctest --test-dir _build -j3 --timeout 1500 > _build/ctest.log 2>&1 ); rc_suite=$?
+  res="$(grep -E "tests passed|tests failed" $REUSE_BUILD/_build/ctest.log 2>/dev/null | tail -1) [suite rebuilt incrementally and run by confirm_seed.sh in the author's patched worktree, tree == HEAD + patch.diff asserted]"
+else
 ( cd $WT && cmake -G Ninja -B _build -S . -DAMGCL_BUILD_TESTS=ON -DCMAKE_BUILD_TYPE=RelWithDebInfo > /dev/null 2>&1 && nice cmake --build _build -j6 > _build/build.log 2>&1 \
   && GOMP_SPINCOUNT=0 OMP_NUM_THREADS=4 ctest --test-dir _build -j3 --timeout 1500 > _build/ctest.log 2>&1 ); rc_suite=$?
 res=$(grep -E "tests passed|tests failed" $WT/_build/ctest.log 2>/dev/null | tail -1)
+fi
 echo "$D demo_clean_rc=$rc_clean demo_patched_rc=$rc_patched suite_rc=$rc_suite :: $res" >> $LOG
 git -C /repo worktree remove --force $WT
-rm -f /tmp/cs_demo_clean /tmp/cs_demo_patched
+rm -f /tmp/cs_$$_demo_clean /tmp/cs_$$_demo_patched /tmp/cs_$$_build.err /tmp/cs_$$_demo.out
